@@ -27,7 +27,7 @@ template <class L> class LabeledFamily : public IAlgoFamily {
     bool handles(const std::string &k) const override {
         return k == "reverse" || k == "todirected" || k == "toundirected" || k == "edgelist" || k == "subgraphD" ||
                k == "subgraphU" || k == "search" || k == "reject" || k == "iter" || k == "big_conv" ||
-               (k == "iter_scale" && nolabel);
+               ((k == "iter_scale" || k == "search_deep") && nolabel);
     }
 
     CaseResult run(const json &c, unsigned seed) override {
@@ -72,6 +72,11 @@ template <class L> class LabeledFamily : public IAlgoFamily {
             iterateScale<DG>(c, r);
             if (r.ok)
                 iterateScale<UG>(c, r);
+        }
+        if (k == "search_deep") {
+            searchDeep<DG>(c, r);
+            if (r.ok)
+                searchDeep<UG>(c, r);
         }
         return r;
     }
@@ -407,6 +412,60 @@ template <class L> class LabeledFamily : public IAlgoFamily {
             return r.fail("vertex iteration count");
     }
 
+    // C11 on a path 0 - 1 - ... - n-1 (the deepest graph on n vertices): every result is known in
+    // closed form.  Run with a small stack, and with n around 2^16 (c.light: without the all-paths
+    // enumerations, which copy quadratically).
+    template <class G> void searchDeep(const json &c, CaseResult &r) {
+        const size_t n = c.at("n").get<size_t>();
+        const bool light = c.value("light", false);
+        G g(n);
+        for (VertexIndex v = 0; v + 1 < n; ++v)
+            g.addEdge(v, v + 1, true);
+        const VertexIndex last = (VertexIndex)(n - 1);
+        auto isPath = [&](const std::list<VertexIndex> &p, VertexIndex from, VertexIndex to) {
+            if (p.size() != (size_t)(to - from) + 1)
+                return false;
+            VertexIndex want = from;
+            for (VertexIndex v : p)
+                if (v != want++)
+                    return false;
+            return true;
+        };
+        try {
+            auto p1 = algorithms::findVertexPredecessors(g, 0);
+            auto p2 = algorithms::findAllVertexPredecessors(g, 0);
+            for (VertexIndex v = 0; v < n; ++v) {
+                bool ok = p1.first[v] == v && p2.first[v] == v && (v == 0 || p1.second[v] == v - 1) &&
+                          (v == 0 ? p2.second[v].empty() : (p2.second[v].size() == 1 && p2.second[v].front() == v - 1));
+                if (!ok)
+                    return r.fail("predecessor searches on a path of " + std::to_string(n) + " vertices: vertex " + std::to_string(v));
+            }
+            if (!isPath(algorithms::findGeodesics(g, 0, last), 0, last))
+                return r.fail("findGeodesics(0, n-1) on a path of " + std::to_string(n) + " vertices");
+            if (!isPath(algorithms::findPathToVertexFromPredecessors(g, last, p1), 0, last))
+                return r.fail("findPathToVertexFromPredecessors on a path of " + std::to_string(n) + " vertices");
+            if (!light) {
+                auto mp = algorithms::findMultiplePathsToVertexFromPredecessors(g, last, p2);
+                if (mp.size() != 1 || !isPath(mp.front(), 0, last))
+                    return r.fail("findMultiplePathsToVertexFromPredecessors on a path of " + std::to_string(n) + " vertices");
+                auto all = algorithms::findAllGeodesics(g, 0, last);
+                if (all.size() != 1 || !isPath(all.front(), 0, last))
+                    return r.fail("findAllGeodesics(0, n-1) on a path of " + std::to_string(n) + " vertices");
+            }
+            if (c.value("fromv", false)) {
+                auto fv = algorithms::findGeodesicsFromVertex(g, 0);
+                auto afv = algorithms::findAllGeodesicsFromVertex(g, 0);
+                if (fv.size() != n || afv.size() != n)
+                    return r.fail("from-vertex searches on a path: result sizes");
+                for (VertexIndex v = 0; v < n; ++v)
+                    if (!isPath(fv[v], 0, v) || afv[v].size() != 1 || !isPath(afv[v].front(), 0, v))
+                        return r.fail("from-vertex searches on a path of " + std::to_string(n) + " vertices: destination " + std::to_string(v));
+            }
+        } catch (const std::exception &e) {
+            return r.fail("search on a path of " + std::to_string(n) + " vertices threw: " + e.what());
+        }
+    }
+
     template <class G> void iterate(const json &c, CaseResult &r) {
         const size_t n = c.at("n").get<size_t>();
         G g(n);
@@ -641,6 +700,25 @@ template <class L> class LabeledFamily : public IAlgoFamily {
                     rec["allfromv"] = afv;
                 }
                 rec["withpaths"] = withPaths;
+                // callers name vertices with whatever integer type they have at hand (int literals,
+                // long, size_t): the same vertices must give the same results
+                if (withPaths && n <= 8) {
+                    const int si = (int)s;
+                    const long sl = (long)s;
+                    const size_t sz = s;
+                    bool same = algorithms::findVertexPredecessors(g0, si) == algorithms::findVertexPredecessors(g0, s) &&
+                                algorithms::findAllVertexPredecessors(g0, sl) == algorithms::findAllVertexPredecessors(g0, s) &&
+                                algorithms::findGeodesicsFromVertex(g0, si) == algorithms::findGeodesicsFromVertex(g0, s) &&
+                                algorithms::findAllGeodesicsFromVertex(g0, sz) == algorithms::findAllGeodesicsFromVertex(g0, s);
+                    for (VertexIndex t = 0; t < n && same; ++t)
+                        same = algorithms::findGeodesics(g0, si, (int)t) == algorithms::findGeodesics(g0, s, t) &&
+                               algorithms::findAllGeodesics(g0, si, (int)t) == algorithms::findAllGeodesics(g0, s, t) &&
+                               algorithms::findGeodesics(g0, sl, (long)t) == algorithms::findGeodesics(g0, s, t) &&
+                               algorithms::findAllGeodesics(g0, sz, (size_t)t) == algorithms::findAllGeodesics(g0, s, t);
+                    if (!same)
+                        return r.fail("a search called with int / long / size_t vertex arguments returns something else than with "
+                                      "VertexIndex arguments (source " + std::to_string(s) + ")");
+                }
                 // the reconstruction helper with an explicit source other than the root of the
                 // predecessor table: a path when that source lies on the destination's chain,
                 // std::runtime_error otherwise (small graphs only: n^2 calls per record)
